@@ -148,6 +148,21 @@ def descriptions():
     yield [{'datasets': {'d0': d}}, {'datasets': {'d1': d}, 'extra': {}}], 'extra-key-in-later-part'
     yield [{'datasets': {'d0': d}}, {'datasets': {'d1': d}},
            {'datasets': {'d0': {'e9': {'v': 9}}}}], 'dup-dataset-third-part'
+    # every way of re-using one name in two of 2..4 merged parts: as dataset or
+    # alias in the earlier part x as dataset or alias in the later part
+    for P in (2, 3, 4):
+        for i in range(P):
+            for j in range(i + 1, P):
+                for ki in ('dataset', 'alias'):
+                    for kj in ('dataset', 'alias'):
+                        parts = [{'datasets': {f'base{q}': {f'b{q}e0': {'v': q}}}}
+                                 for q in range(P)]
+                        for q, kind in ((i, ki), (j, kj)):
+                            if kind == 'dataset':
+                                parts[q]['datasets']['name'] = {f'n{q}e0': {'v': 50 + q}}
+                            else:
+                                parts[q].setdefault('alias', {})['name'] = [f'base{q}']
+                        yield parts, f'dup-{ki}@{i}-{kj}@{j}-of-{P}'
 
 
 def requests_for(parts, rng, nreq):
@@ -156,6 +171,8 @@ def requests_for(parts, rng, nreq):
         names += list(p['datasets']) + list(p.get('alias', {}))
     names = list(dict.fromkeys(names))
     pool = list(names) + ['nope']
+    if 'name' in names:
+        pool += ['name', 'name']
     if len(names) >= 2:
         pool.append([names[0], names[1]])
         pool.append((names[-1], names[0]))
